@@ -13,11 +13,28 @@ from typing import Any
 from typing import Tuple
 
 from clikit.api.io import IO
-from clikit.formatter.plain_formatter import PlainFormatter
 from clikit.utils._compat import PY2
 from clikit.utils._compat import PY36
-from clikit.utils._compat import decode
 from clikit.utils._compat import encode
+
+
+def escape_markup(text):  # type: (str) -> str
+    """
+    Escapes a text so that the formatter writes it as it is.
+    """
+    return text.replace("<", "\\<")
+
+
+def styled(style, text):  # type: (str, str) -> str
+    """
+    Returns the markup that writes a literal text in the given style.
+
+    A backslash at the end of the text would escape the closing tag:
+    it is written behind it.
+    """
+    body = text.rstrip("\\")
+
+    return "<{}>{}</>{}".format(style, escape_markup(body), text[len(body) :])
 
 
 class Highlighter(object):
@@ -84,13 +101,9 @@ class Highlighter(object):
         current_col = 0
         buffer = ""
         current_type = None
-        source_io = io.BytesIO(encode(source))
-        formatter = PlainFormatter()
+        source_lines = source.split("\n")
 
-        def readline():
-            return encode(formatter.remove_format(decode(source_io.readline())))
-
-        tokens = tokenize.tokenize(readline)
+        tokens = tokenize.tokenize(io.BytesIO(encode(source)).readline)
         line = ""
         for token_info in tokens:
             token_type, token_string, start, end, _ = token_info
@@ -101,9 +114,7 @@ class Highlighter(object):
 
             if token_type == tokenize.ENDMARKER:
                 # End of source
-                if current_type is not None:
-                    line += "<{}>{}</>".format(self._theme[current_type], buffer)
-
+                line += self._segment(current_type, buffer)
                 lines.append(line)
                 break
 
@@ -112,9 +123,9 @@ class Highlighter(object):
                 if diff > 1:
                     lines += [""] * (diff - 1)
 
-                line += "<{}>{}</>".format(
-                    self._theme[current_type], buffer.rstrip("\n")
-                )
+                line += self._segment(current_type, buffer.rstrip("\n"))
+                # What the line holds behind its last token (a continuation backslash)
+                line += source_lines[current_line - 1][current_col:].rstrip()
 
                 # New line
                 lines.append(line)
@@ -147,7 +158,7 @@ class Highlighter(object):
                 buffer += token_info.line[current_col : start[1]]
 
             if current_type != new_type:
-                line += "<{}>{}</>".format(self._theme[current_type], buffer)
+                line += self._segment(current_type, buffer)
                 buffer = ""
                 current_type = new_type
 
@@ -156,11 +167,10 @@ class Highlighter(object):
                 lines.append(line)
                 token_lines = token_string.split("\n")
                 for token_line in token_lines[1:-1]:
-                    lines.append(
-                        "<{}>{}</>".format(self._theme[current_type], token_line)
-                    )
+                    lines.append(self._segment(current_type, token_line))
 
                 current_line = end[0]
+                current_col = end[1]
                 buffer = token_lines[-1][: end[1]]
                 line = ""
                 continue
@@ -170,6 +180,12 @@ class Highlighter(object):
             current_line = lineno
 
         return lines
+
+    def _segment(self, token_type, text):
+        if not text:
+            return ""
+
+        return styled(self._theme[token_type], text)
 
     def line_numbers(self, lines, mark_line=None):
         max_line_length = max(3, len(str(len(lines))))
@@ -241,14 +257,36 @@ class ExceptionTrace(object):
 
     def render(self, io, simple=False):  # type: (IO, bool) -> None
         if simple:
-            io.write_line("<error>{}</error>".format(str(self._exception)))
-            return
+            return self._render_simple(io)
 
         if not PY36:
             return self._render_legacy(io)
 
         with io.increment_indent(2):
             return self._render_exception(io, self._exception)
+
+    def _render_simple(self, io):
+        message = str(self._exception)
+        markup = "<error>{}</error>".format(message)
+
+        if not message.endswith("\\") and self._is_markup(io, markup):
+            io.write_line(markup)
+            return
+
+        # The message cannot be read as markup: it is written literally
+        body = message.rstrip("\\")
+        io.write("<error>{}</error>".format(escape_markup(body)))
+        io.write_raw(message[len(body) :])
+        io.write_line("")
+
+    def _is_markup(self, io, string):  # type: (IO, str) -> bool
+        try:
+            io.remove_format(string)
+        except ValueError:
+            # Style tags that do not nest
+            return False
+
+        return True
 
     def _render_legacy(self, io):
         if hasattr(self._exception, "__traceback__"):
@@ -279,10 +317,11 @@ class ExceptionTrace(object):
             io, "<error>{}</error>".format(inspector.exception_name), True
         )
         io.write_line("")
-        exception_message = io.remove_format(inspector.exception_message).replace(
-            "\n", "\n  "
-        )
-        self._render_line(io, "<b>{}</b>".format(exception_message))
+        exception_message = inspector.exception_message
+        if self._is_markup(io, exception_message):
+            exception_message = io.remove_format(exception_message)
+
+        self._render_line(io, styled("b", exception_message.replace("\n", "\n  ")))
 
         current_frame = inspector.frames[-1]
         self._render_snippet(io, current_frame)
@@ -416,7 +455,7 @@ class ExceptionTrace(object):
                                 supports_utf8=io.supports_utf8()
                             ).highlighted_lines(frame.line.strip())[0]
                         except tokenize.TokenError:
-                            code_line = frame.line.strip()
+                            code_line = escape_markup(frame.line.strip())
 
                         self._render_line(
                             io, "{:>{}}  {}".format(" ", max_frame_length, code_line),
